@@ -1,4 +1,5 @@
 import Secp.Gen.Facts
+import Secp.Gen.GroupAPI
 /-!
 # C16 — concurrent use with shared read-only arguments is race-free and deterministic
 
@@ -99,6 +100,15 @@ theorem global_addresses_passed : Facts.globalAddrArgs.length ≤ 8 := by decide
 /-- no API function (nor any callee) has a statement that can write through a caller-supplied byte slice
 (static write analysis of `go2lean`, re-derived on every run; see C15) -/
 theorem no_slice_writes : Facts.sliceParamWrites = [] := by decide
+
+/-- the same conclusion reached independently by the byte-slice mode of the translator while it regenerated the hashing code
+(alias classes, DESIGN §3.2): the three hashing functions and everything of `xmd.go` they call neither overwrite nor append
+into any slice parameter, and every function was translated (so the claim is not empty) — the message and DST two goroutines
+share are only read -/
+theorem hashing_arguments_read_only :
+    GenXmd.notTranslated = [] ∧ GenGroup.notTranslated = [] ∧
+    GenXmd.callerMemoryAppends = [] ∧ GenGroup.callerMemoryAppends = [] ∧ GenGroup.callerMemoryWrites = [] ∧
+    (∀ p ∈ GenXmd.callerMemoryWrites, p.1 = "xorSlices") := by decide
 
 /-- arguments of the group-law formulas are never rebound (cell analysis, regenerated) -/
 theorem arguments_untouched :
